@@ -17,11 +17,11 @@ CHANNEL_ORDER = ["outcome", "diagnostics", "discovery_order", "cst", "ast", "hir
                  "mono", "lift", "anf", "go", "interfaces"]
 
 
-def msg_class(line):
+def msg_class(line, limit=7):
     """words of a diagnostic that are not names: identifies the message template"""
     body = line.split("|", 3)[-1]
     ws = [w for w in body.split() if w.isalpha() and w.islower() and len(w) > 2]
-    return " ".join(ws[:7])
+    return " ".join(ws[:limit])
 
 
 def classify(mism):
@@ -36,8 +36,10 @@ def classify(mism):
             re_ord = sorted(l0) == sorted(l1)
             sig = {"oracle": "recompile", "kind": ch + ("-reordered" if re_ord else "-differs")}
             if ch in ("diagnostics", "interfaces"):
-                d = next((x for x, y in zip(l0, l1) if x != y), l0[0] if l0 else "")
-                sig["message"] = msg_class(d)
+                d, e = next(((x, y) for x, y in zip(l0, l1) if x != y), (l0[0] if l0 else "", ""))
+                # the words the two differing lines share: names that merely swapped places drop out
+                other = set(msg_class(e, 99).split())
+                sig["message"] = " ".join([w for w in msg_class(d, 99).split() if w in other or not e][:7])
             return sig
     return {"oracle": "recompile", "kind": "unknown-channel"}
 
@@ -62,16 +64,22 @@ def run(ctx):
     # children run concurrently with the master
     env = dict(vlib.ENV, GV_SCRATCH=os.path.join(vlib.CACHE, "scratch"), GV_VERIF=vlib.VERIF, GV_REPO=repo)
 
+    # cheap extra processes that recompile only the collection-diagnostics family: a hash-ordered diagnostic shows
+    # up as soon as two processes (two hash seeds) print different listings
+    ndiag = 20 if ctx.tier == "quick" else 48
+
     def child(i):
         cmd = [vlib.GV, "c13", "child", "--n", str(i), "--seed", str(ctx.seed), "--tier", ctx.tier, "--out", ctx.run_dir]
+        if i > nchild:
+            cmd += ["only", "collection-diagnostics"]
         p = subprocess.run(cmd, env=env, stdout=subprocess.PIPE, stderr=subprocess.STDOUT, text=True, timeout=3000)
         return i, p.returncode, p.stdout[-1500:]
 
     for f in os.listdir(ctx.run_dir):
         if f.startswith("c13."):
             os.remove(os.path.join(ctx.run_dir, f))
-    with concurrent.futures.ThreadPoolExecutor(max_workers=nchild + 1) as ex:
-        futs = [ex.submit(child, i) for i in range(1, nchild + 1)]
+    with concurrent.futures.ThreadPoolExecutor(max_workers=nchild + 5) as ex:
+        futs = [ex.submit(child, i) for i in range(1, nchild + ndiag + 1)]
         # a file system whose readdir order follows creation order (tmpfs: newest first), so that the
         # permuted copies really are enumerated in different orders (ext4 orders by name hash)
         scratch = None
@@ -158,25 +166,51 @@ def run(ctx):
                 d[(r[0], r[1])] = r[2]
         return d
     master = digests(os.path.join(ctx.run_dir, "c13.digest.master.tsv")) if ok else {}
-    xproc_checked, xproc_bad = 0, {}
+    listing_master = {}
+    lm = os.path.join(ctx.run_dir, "c13.cdiag.master.tsv")
+    if os.path.exists(lm):
+        for r in vlib.read_tsv(lm):
+            if len(r) >= 3:
+                listing_master[r[0]] = (vlib.unesc(r[1]), vlib.unesc(r[2]))
+
+    def listing_child(i):
+        out = {}
+        pth = os.path.join(ctx.run_dir, f"c13.cdiag.child{i}.tsv")
+        if os.path.exists(pth):
+            for r in vlib.read_tsv(pth):
+                out[r[0]] = vlib.unesc(r[1]) if len(r) > 1 else ""
+        return out
+    xproc_checked, xproc_bad, xproc_child = 0, {}, {}
     for i, rc, _ in kids:
         p = os.path.join(ctx.run_dir, f"c13.digest.child{i}.tsv")
         if rc != 0 or not os.path.exists(p):
             continue
         cd = digests(p)
-        if set(k[0] for k in cd) != set(k[0] for k in master):
+        only_family = i > nchild
+        want = set(k[0] for k in master if not only_family or k[0].startswith("cdiag-"))
+        if set(k[0] for k in cd) != want:
             ctx.broken_ties.append(("cross-process", f"child {i} compiled a different project set"))
         for key, dg in master.items():
+            if key[0] not in want:
+                continue
             xproc_checked += 1
             if cd.get(key) != dg:
                 xproc_bad.setdefault(key[0], set()).add(key[1])
+                xproc_child.setdefault(key[0], i)
     for pid, chans in xproc_bad.items():
         if pid in mism:
             continue   # already reported with texts by the in-process run
         kind = "discovery-order" if "discovery_order" in chans else next(c for c in CHANNEL_ORDER + sorted(chans) if c in chans) + "-differs"
-        ctx.report({"oracle": "recompile", "kind": kind},
-                   f"another process compiling the same sources produced different bytes ({kind})",
-                   {"project": pid, "how": "cross-process digests", "channels": sorted(chans)})
+        payload = {"project": pid, "how": "cross-process digests", "channels": sorted(chans)}
+        sig = {"oracle": "recompile", "kind": kind}
+        if pid in listing_master:
+            # the family keeps the full listings: show the program and two listings, classify like the in-process run
+            a_txt, src = listing_master[pid]
+            b_txt = listing_child(xproc_child[pid]).get(pid, "")
+            payload.update({"sources": src, "listing_master_process": a_txt, "listing_child_process": b_txt, "child": xproc_child[pid]})
+            if "diagnostics" in chans and a_txt != b_txt:
+                sig = classify([{"channel": "diagnostics", "a": a_txt, "b": b_txt}])
+        ctx.report(sig, f"another process compiling the same sources produced different bytes ({sig['kind']})", payload)
 
     cov = {
         "evaluations": len(cases) + total_compiles + len(kids) * len(projs),
